@@ -196,6 +196,10 @@ func (e *L1Env) Deposit(from sim.Account, bridge uint64, to string, denom string
 }
 
 // Escrow returns the bridge escrow's balances.
+// refBridgeAddr: a bridge's escrow address derived by the independent implementation (ADR-028 module sub-address), not by
+// the function under test.
+func refBridgeAddr(bridge uint64) sdk.AccAddress { return sdk.AccAddress(ref.BridgeAddress(bridge)) }
+
 func (e *L1Env) Escrow(bridge uint64) sdk.Coins {
-	return e.L1.BK.GetAllBalances(e.L1.Ctx, ophosttypes.BridgeAddress(bridge))
+	return e.L1.BK.GetAllBalances(e.L1.Ctx, refBridgeAddr(bridge))
 }
